@@ -25,6 +25,10 @@ func hexList(l []string) string {
 // Do returns (observation, handled).
 func Do(op string) (string, bool) {
 	t := strings.Fields(op)
+	if len(t) > 0 && strings.HasPrefix(t[0], "h1.") { // the HTTP/1 codec ops (h1.go); oracle verdicts need DoH1
+		r, ok := DoH1(op)
+		return r.Impl, ok
+	}
 	if len(t) == 0 || !strings.HasPrefix(t[0], "golib.") {
 		return "", false
 	}
